@@ -77,5 +77,10 @@ PROP = dict(
                  "the model: every theorem holds for every function from (contest, assertion) to (p, history); "
                  "they are modelled and verified by C01/C05/C06/C11/C12",
                  "a contest without assertions has measured risk 0 and counts as complete iff 0 <= its risk limit; "
-                 "complete_iff states this conjunct explicitly, it is vacuous for every limit check_audit_parameters accepts"],
+                 "complete_iff states this conjunct explicitly, it is vacuous for every limit check_audit_parameters accepts",
+                 "contest-level theorems (RiskLimitOutcome.lean: plurality_/supermajority_outcome_*_risk_limit, "
+                 "audit_polling_/audit_comparison_risk_limit): the contest's assertion list contains an assertion for EVERY "
+                 "(reported winner, reported loser) pair, each set up as make_plurality_assertions sets it up (hypothesis "
+                 "hall; see C02).  The constructor loop is not modelled; the hypothesis is tested on the real constructor by "
+                 "the oracle auditrisk.oracle_outcome and fails when two pairs get the same dict key (known finding F30)"],
 )
